@@ -313,7 +313,13 @@ def worlds(draw, ninst=3, hostile_names=True, split_paths=False, foreign_ids=Fal
                     holder = {"disallow": [holder]}
                 if wrap != "plain":
                     classes.append("nested-id-under-verdict-only-keyword")
-                root.setdefault("properties", {})[k] = holder
+                props = root.get("properties") if isinstance(root.get("properties"), dict) else {}
+                if draw(st.booleans()):
+                    # evaluated BEFORE the other properties: whatever it leaves behind meets their references
+                    root["properties"] = dict([(k, holder)] + [(kk, vv) for kk, vv in props.items() if kk != k])
+                else:
+                    props[k] = holder
+                    root["properties"] = props
                 classes.append("nested-id")
                 if not nid.startswith("http"):
                     classes.append("nested-id-relative")
